@@ -66,6 +66,20 @@ claimed["C02"] = dict(
          "pattern bytes are solver-quantified.",
     design="5 C02", technique=T)
 
+claimed["C07"] = dict(
+    text="A/B harness: router A (corpus set inserted in canonical order) versus router B (same set reached through one of 9 "
+         "mutation histories executed by the real write path); bounded symbolic execution of Lookup and ServeHTTP on both for "
+         "every Host/path within the bounds and four request methods shows identical route, parameters, trailing-slash "
+         "outcome, status, handler kind and Allow header.",
+    design="5 C07", technique="bounded symbolic execution of go/ssa + SMT (z3, QF_BV), A/B differential between two real routers, native replay")
+claimed["C11"] = dict(
+    text="Bounded symbolic execution of the real ServeHTTP unmatched-request path on multi-method corpus routers against the "
+         "reference (per-method R-match/R-tsr giving the set of methods that serve the host and path directly or by ignoring "
+         "a trailing slash): handler kind (404/405/OPTIONS), scope, absence of route/pattern/parameters in the context and "
+         "the Allow header (compared as a set) for every Host/path within the bounds, the target '*', five request methods "
+         "and the four option combinations.",
+    design="5 C11", technique=T)
+
 reasons = {}
 
 ids = [json.loads(l)["id"] for l in open("/verif/properties.jsonl")]
